@@ -7,6 +7,8 @@ require (
 	github.com/quasilyte/go-ruleguard/dsl v0.3.22
 	github.com/quasilyte/gogrep v0.5.0
 	golang.org/x/tools v0.30.0
+	example.com/rb1 v0.0.0
+	example.com/rb2 v0.0.0
 )
 
 require (
@@ -17,3 +19,8 @@ require (
 )
 
 replace github.com/quasilyte/go-ruleguard => /repo
+
+// rule bundles imported by the C13 load-history files
+replace example.com/rb1 => ./fake/rb1
+
+replace example.com/rb2 => ./fake/rb2
